@@ -26,12 +26,13 @@ CFGS = {
     "resvA": dict(salt="S1", anon_pwd=True, anon_ip=False, sensitive_words=["resv", "zurnet"], as_numbers=None, reserved_words=["resva", "MyResvA"]),
     "other": dict(salt="_lab-salt-2024", anon_pwd=True, anon_ip=True, sensitive_words=WORDS, as_numbers=None, reserved_words=["resvb"]),
     "netsX": dict(salt="S1", anon_pwd=False, anon_ip=True, sensitive_words=None, as_numbers=None, reserved_words=None, preserve_networks=["11.22.0.0/16", "12.0.0.0/8"]),
+    "emptysalt": dict(salt="", anon_pwd=True, anon_ip=True, sensitive_words=["zurnet", "kit"], as_numbers=["65001"], reserved_words=None),
     "nosalt": dict(salt=None, anon_pwd=True, anon_ip=True, sensitive_words=["zurnet"], as_numbers=["65001"], reserved_words=None),
 }
 INPUTS = {
     "mixed": "\n".join([
         "hostname kitten-rtr1", "username admin secret sha512 $6$RMxgK5ALGIf.nWEC$tHuKCyfNtJMCY561P52dTzHUmYMmLxb/Mxik.j3vMUs8lMCPocM00/NAS.SN6GCWx7d/vQIgxnClyQLAb7n3x0",
-        "enable secret 5 $1$wtHI$0rN7R8PKwC30AsCGA77vy.", " password 7 122A00190102180D3C2E", "snmp-server community resva RO", "snmp-server community resvb RW",
+        "enable secret 5 $1$wtHI$0rN7R8PKwC30AsCGA77vy.", "username admin secret 5 $1$$n3tc0n$Qz1Vabcdefghijklmnop", "username old secret 5 $1$ab$Qz1Vabcdefghijklmnopqr", " password 7 122A00190102180D3C2E", "snmp-server community resva RO", "snmp-server community resvb RW",
         "description kitt xkittenx KITTEN mitt resva resvb MyResvA zurnetwork", 'secret "$9$Be4EhyVb2GDkevYo"', "tacacs-server host 10.9.8.7 key S3cretKeyXq",
         "ip address 11.22.33.44 255.255.255.0", "ipv6 address 2001:db8::12/64", "router bgp 65001", " neighbor 12.1.1.1 remote-as 12", "key 918273645", "",
     ]) + "\n",
